@@ -3,13 +3,14 @@ from harness.core import cl, cn, cz
 
 ID = "C07"
 IMPL = "c07"
+IMPL_CHUNK = 60
 THEOREM_FILE = "Properties/C07.v"
 COQ_IMPORT = "From Pamiq Require Import Model.DataPipe Check.C07."
 COQ_CASE_TYPE = "case"
 COQ_AGREE = "case_agree"
 COQ_PROP_OK = "case_prop_ok"
 RULE = ("seeded histories over collect/update/get_data/count_data_added_since/save_state on a real DataUsersDict-created user+collector pair behind a "
-        "recording buffer; queue size in {None, 0, 1, 2, 5}; up to 40 operations; timestamps non-decreasing with ties, thresholds around existing "
+        "recording buffer (atomic histories, plus two-thread runs preempted at source-line granularity whose serialisation must be an atomic run); queue size in {None, 0, 1, 2, 5}; up to 40 operations; timestamps non-decreasing with ties, thresholds around existing "
         "timestamps; plus acquisition histories of DataCollectorsDict (known / unknown / repeated names). Non-trivial = at least one epoch longer than "
         "the queue size or at least two hand-overs with a count after each; distinct = canonical JSON.")
 TRUSTED = [
@@ -18,7 +19,7 @@ TRUSTED = [
     "harness/impl/c07.py: recording DataBuffer subclass; module attribute pamiq_core.time.time scripted",
 ]
 ASSUMPTIONS = ["deque(maxlen=n).append drops from the left (bapp in the model)",
-               "operations are atomic here; interleavings at line granularity are covered by the lock theorem and the line-level exploration (C07 thorough)"]
+               "line-level part: two sim threads, every source line of data/interface.py and every lock operation is a preemption point; schedules are bounded-preemption (random in quick, exhaustive <= 2 preemptions for a few programs in thorough); the interleaved run must equal the atomic run in lock-acquisition order"]
 
 
 def gen_pipe(rng):
@@ -46,9 +47,45 @@ def gen_acq(rng):
     return {"kind": "acq", "names": names, "reqs": reqs}
 
 
+def gen_line_program(rng):
+    q = rng.choice([None, 0, 1, 2, 2, 3])
+    t, collects = rng.randint(0, 20), []
+    for i in range(rng.randint(1, 4)):
+        t += rng.choice([0, 1, 2])
+        collects.append([i + 1, t])
+    consumer = []
+    for _ in range(rng.randint(1, 4)):
+        r = rng.random()
+        consumer.append(["update"] if r < 0.45 else ["get"] if r < 0.65 else ["save"] if r < 0.75 else ["count", max(0, t - rng.choice([0, 1, 2, 5]))])
+    return {"kind": "line", "q": q, "collects": collects, "consumer": consumer, "preempt": []}
+
+
+def gen_line(rng, n_prog, per_prog, exhaustive=False):
+    """two sim threads at source-line granularity; schedules = run-to-completion with switches at chosen choice indices"""
+    out = []
+    for _ in range(n_prog):
+        prog = gen_line_program(rng)
+        horizon = 30 + 22 * (len(prog["collects"]) + len(prog["consumer"]))
+        if exhaustive:
+            idx = range(0, horizon, 1)
+            pre = [[a] for a in idx] + [[a, b] for a in idx for b in idx if a < b and (b - a) % 3 == 0]
+        else:
+            pre = [sorted(rng.sample(range(horizon), rng.choice([1, 2, 2, 3, 4]))) for _ in range(per_prog)]
+        for pset in pre:
+            c = dict(prog); c["preempt"] = list(pset); out.append(c)
+    return out
+
+
 def gen(rng, tier):
     n = {"quick": 2000, "thorough": 40000, "search": 6000}[tier]
-    return [gen_pipe(rng) if rng.random() < 0.9 else gen_acq(rng) for _ in range(n)]
+    cases = [gen_pipe(rng) if rng.random() < 0.9 else gen_acq(rng) for _ in range(n)]
+    if tier == "quick":
+        cases += gen_line(rng, 40, 12)
+    elif tier == "search":
+        cases += gen_line(rng, 100, 20)
+    else:
+        cases += gen_line(rng, 300, 30) + gen_line(rng, 6, 0, exhaustive=True)
+    return cases
 
 
 def precheck(case, obs):
@@ -79,6 +116,10 @@ def coq_input(case):
 
 
 def coq_case(case, obs):
+    if case["kind"] == "line":
+        # the interleaved run, serialised in lock-acquisition order, must be an atomic run of the model
+        ser = {"q": case["q"], "ops": obs["ops"]}
+        return f"(CPipe {coq_input(ser)} {cl(_out(o) for o in obs['outs'])})"
     if case["kind"] == "acq":
         outs = cl("AcqOk" if o == "ok" else "AcqKeyError" for o in obs["acq"])
         return f"(CAcq {cl(cn(n) for n in case['names'])} {cl(cn(n) for n in case['reqs'])} {outs})"
@@ -86,12 +127,16 @@ def coq_case(case, obs):
 
 
 def coq_expected(case, obs):
+    if case["kind"] == "line":
+        return f"model_outs {coq_input({'q': case['q'], 'ops': obs.get('ops', [])})}"
     if case["kind"] == "acq":
         return f"acq_run {cl(cn(n) for n in case['names'])} [] {cl(cn(n) for n in case['reqs'])}"
     return f"model_outs {coq_input(case)}"
 
 
 def nontrivial(case, obs):
+    if case["kind"] == "line":
+        return obs.get("switches", 0) >= 4 and len(case["collects"]) >= 2
     if case["kind"] == "acq":
         return len(set(case["reqs"])) < len(case["reqs"]) and bool(case["names"])
     q = case["q"]
@@ -111,11 +156,20 @@ def nontrivial(case, obs):
 def signature(case, obs):
     if "error" in obs or "crash" in obs:
         return "raises"
+    if case["kind"] == "line":
+        return "pipe-delivery-under-interleaving"
     return "acquire" if case["kind"] == "acq" else "pipe-delivery"
 
 
 def shrink(case):
     out = []
+    if case["kind"] == "line":
+        for k in ("preempt", "consumer", "collects"):
+            xs = case[k]
+            for i in range(len(xs) - 1, -1, -1):
+                if k == "preempt" or len(xs) > 1:
+                    c = dict(case); c[k] = xs[:i] + xs[i + 1:]; out.append(c)
+        return out
     key = "reqs" if case["kind"] == "acq" else "ops"
     xs = case[key]
     for i in range(len(xs) - 1, -1, -1):
@@ -131,6 +185,9 @@ def distribution(cases, obs):
     d = {"kind": {}, "q": {}, "ops": {}, "epochs_over_q": 0}
     for c in cases:
         d["kind"][c["kind"]] = d["kind"].get(c["kind"], 0) + 1
+        if c["kind"] == "line":
+            d["line_level_schedules"] = d.get("line_level_schedules", 0) + 1
+            d["line_level_preemptions"] = d.get("line_level_preemptions", 0) + len(c["preempt"])
         if c["kind"] == "pipe":
             d["q"][str(c["q"])] = d["q"].get(str(c["q"]), 0) + 1
             e = 0
